@@ -286,7 +286,17 @@ impl CopiaSync {
             decreases source_data.len() - pos
         {
             let ghost win = s.subrange(pos as int, pos + bsi);
-            proof { if collision_free() { lemma_match_iff(*signature, basis, s, pos as int, dig(win)); } }
+            proof {
+                if collision_free() { lemma_match_iff(*signature, basis, s, pos as int, dig(win)); }
+                // branch-independent sequence facts
+                assert(s.subrange(0, pos as int) + win =~= s.subrange(0, pos + bsi));
+                assert(s.subrange(0, pos as int).push(s[pos as int]) =~= s.subrange(0, pos + 1));
+                assert(win[0] == s[pos as int]);
+                if pos + bsi < s.len() { assert(win.skip(1).push(s[pos + bsi]) =~= s.subrange(pos + 1, pos + 1 + bsi)); }
+                assert forall|j: int| 0 <= j < signature.blocks@.len() implies (#[trigger] signature.blocks@[j]).index == j && j * bsi < 0x1_0000_0000_0000 && (j + 1) * bsi == j * bsi + bsi by {
+                    assert((j + 1) * bsi == j * bsi + bsi) by(nonlinear_arith);
+                }
+            }
             let weak = rolling.digest();
 
             // Fast path: check weak hash first before computing strong hash
@@ -294,19 +304,6 @@ impl CopiaSync {
                 let block_data = &source_data[pos..pos + block_size];
                 if let Some(sig) = table.find_match(weak, block_data) {
                     // Found a match - emit copy operation
-                    proof {
-                        let j = choose|j: int| 0 <= j < signature.blocks@.len() && *sig == (#[trigger] signature.blocks@[j])
-                            && signature.blocks@[j].weak_hash == weak && signature.blocks@[j].strong_hash.bytes() == H(block_data@);
-                        assert(sig.index == j);
-                        assert(j * bsi < 0x1_0000_0000_0000) ;
-                        assert((sig.index as int) * (block_size as int) == j * bsi);
-                        if collision_free() {
-                            assert(basis.subrange(j * bsi, (j + 1) * bsi) == win);
-                            assert(j * bsi + bsi == (j + 1) * bsi) by(nonlinear_arith);
-                            assert(matchp(s, basis, bsi, pos as int));
-                            assert(s.subrange(0, pos as int) + win =~= s.subrange(0, pos + bsi));
-                        }
-                    }
                     {
                         let offset = u64::from(sig.index) * block_size as u64;
                         delta.push_copy(offset, block_size as u32);
@@ -321,14 +318,6 @@ impl CopiaSync {
             }
 
             // No match - emit literal byte and roll window
-            proof {
-                if collision_free() {
-                    assert(!matchp(s, basis, bsi, pos as int));
-                    assert(s.subrange(0, pos as int).push(s[pos as int]) =~= s.subrange(0, pos + 1));
-                }
-                assert(win.skip(1).push(s[pos + bsi]) =~= s.subrange(pos + 1, pos + 1 + bsi) || pos + bsi >= s.len());
-                assert(win[0] == s[pos as int]);
-            }
             delta.push_literal_byte(source_data[pos]);
 
             if pos + block_size < source_data.len() {
